@@ -4,12 +4,9 @@ package main
 
 import (
 	"fmt"
-	"io"
-	"net/http"
 	"strings"
 
 	"github.com/anishathalye/porcupine"
-	restful "github.com/emicklei/go-restful/v3"
 	"github.com/emicklei/go-restful/v3/zverif/vsched"
 
 	"verif/harness/h"
@@ -18,123 +15,6 @@ import (
 func init() {
 	e3Scenarios["C12"] = c12Scenarios
 	register("C12", checkC12, e3Replay("C12"))
-}
-
-// c12World is a fresh container plus the mutations and requests of a scenario.
-type c12World struct {
-	c    *restful.Container
-	muts []func()
-	reqs []h.Req
-}
-
-type c12Spec struct {
-	name     string
-	world    func(jsr bool) *c12World
-	servers  [][]int // request indices per serving thread
-	mutators [][]int // mutation indices per mutating thread
-}
-
-func routeTo(id string) restful.RouteFunction {
-	return func(req *restful.Request, resp *restful.Response) {
-		vsched.Pt("handler")
-		resp.Header().Set("X-Route", id)
-		io.WriteString(resp, id)
-	}
-}
-
-func newWS(root string, dynamic bool, routes ...string) *restful.WebService {
-	ws := new(restful.WebService).Path(root)
-	ws.SetDynamicRoutes(dynamic)
-	for _, r := range routes {
-		// the condition is a scheduling point inside the region where the container lock is read-held
-		ws.Route(ws.GET(r).If(func(*http.Request) bool { vsched.Pt("condition(under RLock)"); return true }).To(routeTo(root + r)))
-	}
-	return ws
-}
-
-func get(segs ...string) h.Req { return h.Req{Method: "GET", Segs: segs} }
-
-func c12Container(jsr bool) *restful.Container {
-	c := restful.NewContainer()
-	if jsr {
-		c.Router(restful.RouterJSR311{})
-	}
-	return c
-}
-
-var c12Specs = []c12Spec{
-	{name: "add", servers: [][]int{{0, 1}}, mutators: [][]int{{0}}, world: func(jsr bool) *c12World {
-		c := c12Container(jsr)
-		c.Add(newWS("/a", true, "/x"))
-		b := newWS("/b", true, "/x")
-		return &c12World{c: c, muts: []func(){func() { c.Add(b) }}, reqs: []h.Req{get("a", "x"), get("b", "x")}}
-	}},
-	{name: "remove", servers: [][]int{{0, 1}}, mutators: [][]int{{0}}, world: func(jsr bool) *c12World {
-		c := c12Container(jsr)
-		c.Add(newWS("/a", true, "/x"))
-		b := newWS("/b", true, "/x")
-		c.Add(b)
-		return &c12World{c: c, muts: []func(){func() { c.Remove(b) }}, reqs: []h.Req{get("a", "x"), get("b", "x")}}
-	}},
-	{name: "route", servers: [][]int{{0, 1}}, mutators: [][]int{{0}}, world: func(jsr bool) *c12World {
-		c := c12Container(jsr)
-		a := newWS("/a", true, "/x")
-		c.Add(a)
-		c.Add(newWS("/b", true, "/x"))
-		return &c12World{c: c, muts: []func(){func() { a.Route(a.GET("/y").To(routeTo("/a/y"))) }}, reqs: []h.Req{get("a", "x"), get("a", "y")}}
-	}},
-	{name: "unroute", servers: [][]int{{0, 1}}, mutators: [][]int{{0}}, world: func(jsr bool) *c12World {
-		c := c12Container(jsr)
-		a := newWS("/a", true, "/w", "/y", "/x")
-		c.Add(a)
-		return &c12World{c: c, muts: []func(){func() { a.RemoveRoute("/a/y", "GET") }}, reqs: []h.Req{get("a", "x"), get("a", "y")}}
-	}},
-	{name: "panicking-condition", servers: [][]int{{0, 1}}, mutators: [][]int{{0}}, world: func(jsr bool) *c12World {
-		c := c12Container(jsr)
-		c.DoNotRecover(false)
-		c.RecoverHandler(func(p interface{}, w http.ResponseWriter) { w.WriteHeader(500) })
-		a := newWS("/a", true, "/x")
-		a.Route(a.GET("/boom").If(func(*http.Request) bool { panic("condition panics") }).To(routeTo("/a/boom")))
-		c.Add(a)
-		b := newWS("/b", true, "/x")
-		return &c12World{c: c, muts: []func(){func() { c.Add(b) }}, reqs: []h.Req{get("a", "boom"), get("a", "x")}}
-	}},
-	{name: "churn", servers: [][]int{{0}, {1}}, mutators: [][]int{{0, 1}}, world: func(jsr bool) *c12World {
-		c := c12Container(jsr)
-		c.Add(newWS("/a", true, "/x"))
-		b := newWS("/b", true, "/x")
-		return &c12World{c: c, muts: []func(){func() { c.Add(b) }, func() { c.Remove(b) }}, reqs: []h.Req{get("a", "x"), get("b", "x")}}
-	}},
-	{name: "two-mutators", servers: [][]int{{0, 1}}, mutators: [][]int{{0}, {1}}, world: func(jsr bool) *c12World {
-		c := c12Container(jsr)
-		a := newWS("/a", true, "/x")
-		c.Add(a)
-		b := newWS("/b", true, "/x")
-		c.Add(b)
-		return &c12World{c: c, muts: []func(){func() { a.Route(a.GET("/y").To(routeTo("/a/y"))) }, func() { c.Remove(b) }}, reqs: []h.Req{get("a", "y"), get("b", "x")}}
-	}},
-	{name: "route-and-unroute", servers: [][]int{{0, 1}}, mutators: [][]int{{0, 1}}, world: func(jsr bool) *c12World {
-		c := c12Container(jsr)
-		a := newWS("/a", true, "/x", "/y")
-		c.Add(a)
-		return &c12World{c: c, muts: []func(){func() { a.Route(a.GET("/z").To(routeTo("/a/z"))) }, func() { a.RemoveRoute("/a/y", "GET") }}, reqs: []h.Req{get("a", "y"), get("a", "z")}}
-	}},
-}
-
-func respKey(rec *h.Rec) string {
-	hd := rec.Result()
-	return fmt.Sprintf("%d/%s/%v", rec.Code, hd.Get("X-Route"), h.SetOf(strings.Join(hd["Allow"], ",")))
-}
-
-func c12Do(c *restful.Container, serve bool, q h.Req) string {
-	rec := h.NewRec()
-	hr := q.HTTP()
-	if serve {
-		c.ServeHTTP(rec, hr)
-	} else {
-		c.Dispatch(rec, hr)
-	}
-	return respKey(rec)
 }
 
 type c12In struct {
